@@ -360,13 +360,10 @@ class XformRelay(Actor):
                             raise _Reject()
                         nrd += bytes([len(x)]) + x
                         i += 1 + l
-                elif rt == proto.T_A:
-                    nrd = rd
                 else:
-                    x = xform_bytes(rd, self.acfg, self.rng)
-                    if x is None:
-                        raise _Reject()
-                    nrd = x
+                    # A records and opaque RDATA (NULL, PRIVATE, unknown types) are binary: a resolver relays
+                    # them untouched; the family of C11 transforms names and text only
+                    nrd = rd
             except _Reject:
                 self.stats["a_rejected"] += 1
                 if self.refuse_mode == "servfail":
